@@ -151,6 +151,29 @@ fn intrinsic_cases(tier: Tier) -> Vec<Scenario> {
 }
 
 fn sampled(rng: &mut Rng) -> Scenario {
+    if rng.bool(0.25) {
+        // a quarter of the swarm is borrowed from the other campaigns' generators: they place
+        // requested times, events, callbacks and step bounds relative to the step grid (a sample
+        // within 1e-12 of a step end with a terminal event right behind it, ...). Those campaigns
+        // count a run that exceeds the watchdog as blocked - termination is judged here, so the
+        // configurations they reach have to be reached here as well.
+        let c08 = rng.bool(0.5);
+        let sc = match rng.int(0, 8) {
+            0 => super::c03::sampled(rng),
+            1 => super::c05::sampled(rng),
+            2 => super::c06::sampled(rng),
+            3 => super::c0809::sampled(rng, c08),
+            4 => super::c10::sampled(rng),
+            5 => super::c11::sampled(rng),
+            6 => super::c12::sampled(rng),
+            7 => super::c18::sampled(rng),
+            _ => super::c19::sampled(rng),
+        };
+        // (C04 speaks of finite configurations)
+        if sc.xend.is_finite() {
+            return sc;
+        }
+    }
     let m = gen_method(rng);
     let entry = if rng.bool(0.75) { Entry::High } else { Entry::Low };
     let mut sc = gen_base(rng, m, ProbClass::Hostile, entry);
